@@ -103,6 +103,20 @@ TEXT.update({
             "(read_dir_related_files / filter_files are oracles) are not decided; PathBuf::push is an uninterpreted join."),
 })
 
+
+TEXT_ADD = {
+    "C01": " Also proved: the line assembly of the synchronous StateHandle::write (exactly format output + line ending reaches State::write_buffer, the thread-local buffer is empty on every exit path) and the decision of collision_free_infix_for_rotated_file (a rotated file gets the plain name iff neither it, nor its .gz form, nor any .restart-NNNN sibling exists; otherwise a discriminant above every well-formed sibling's).",
+    "C02": " Logger::build (second half, copied into a wrapper) sets the facade gate from spec.max_level() of the initial specification; logger and handle share one specification lock.",
+    "C04": " LoggerHandle::{flush, shutdown} and Drop for WritersHandle reach the primary writer and every additional writer (token facts, loop invariants); StdWriter::flush in all three modes.",
+    "C06": " latest_timestamp_file (which file an appending logger with direct timestamp naming continues) is proved against the listing oracle: configured suffix only, newest parseable time stamp, else now (eager iterator shims R16, proved fold lemma); names of rotated files are never reused (unit collide).",
+    "C14": " latest_timestamp_file considers files with the configured suffix only; the cleanup removes listed files only, for every listing length (unit cleanup).",
+    "C13": " Logger's duplication / target setters change exactly their field; Logger::build constructs the primary writer from the configured duplication levels and writers.",
+    "C19": " Logger::build installs exactly the configured error channel.",
+}
+for k, v in TEXT_ADD.items():
+    if k in TEXT:
+        TEXT[k] = (TEXT[k][0] + v, TEXT[k][1])
+
 NOT_APPLICABLE = {
     "C03": "quantifier is thread schedules: Kani has no threads, Verus would need its own permission-typed locks instead of std::sync::Mutex/crossbeam/thread_local; mutual exclusion is a typing fact, not a contract",
     "C11": "quantifier is crash points between file-system effects: contracts describe completed calls, effect order is invisible to result oracles, no crash-aware program logic for Rust is installed",
